@@ -697,34 +697,63 @@ def _try_continuation(b, cont, dest_local):
 
 def thread_materialised_bools(doc):
     """`if matches!(x, P) { A } else { B }` lowers to: arm P: c = true; goto J   otherwise: c = false; goto J   J: switch c -> A | B.
-    A block that ends by assigning a boolean *constant* to c and jumping to an (otherwise empty) block that only tests c is sent straight
-    to the branch that test would take: the detour through J carries no information and creates the infeasible paths "matched, then else".
-    The assignments stay; only the jump is retargeted.  Returns the number of jumps threaded."""
+    A block that ends by assigning a boolean *constant* to c and jumping to a block that only tests c (possibly after negating or copying
+    it: `let cached = !matches!(..)`) is sent straight to the branch that test would take: the detour through J carries no information and
+    creates the infeasible paths "matched, then else".  The assignments stay (those of J are repeated with their now constant values);
+    only the jump is retargeted.  Returns the number of jumps threaded."""
     n = 0
     for b in doc['bodies']:
         blocks = b['blocks']
         for j, J in enumerate(blocks):
             t = J['term']
-            if J['stmts'] or t['k'] != 'switch' or t.get('discr_ty') != 'bool':
+            if t['k'] != 'switch' or t.get('discr_ty') != 'bool':
                 continue
             d = t['discr']
             if d['k'] not in ('move', 'copy') or d['place']['proj']:
                 continue
-            c = d['place']['local']
+            disc = d['place']['local']
             tg = dict((v, x) for v, x in t['targets'])
+            # J may only compute boolean functions (negation, copy) of one flag before it tests the outcome
+            chain = []   # (dest local, 'not' | 'copy', source local)
+            okJ = True
+            for st in J['stmts']:
+                rv = st.get('rv') or {}
+                if st['k'] != 'assign' or st['place']['proj']:
+                    okJ = False
+                    break
+                if rv.get('k') == 'unop' and rv.get('op') == 'Not' and rv['x']['k'] in ('move', 'copy') and not rv['x']['place']['proj']:
+                    chain.append((st['place']['local'], 'not', rv['x']['place']['local'], st))
+                elif rv.get('k') == 'use' and rv['op']['k'] in ('move', 'copy') and not rv['op']['place']['proj']:
+                    chain.append((st['place']['local'], 'copy', rv['op']['place']['local'], st))
+                else:
+                    okJ = False
+                    break
+            if not okJ:
+                continue
             for P in blocks:
                 pt = P['term']
                 if P is J or pt['k'] != 'goto' or pt.get('target') != j or not P['stmts']:
                     continue
                 st = P['stmts'][-1]
-                if st['k'] != 'assign' or st['place']['local'] != c or st['place']['proj']:
+                if st['k'] != 'assign' or st['place']['proj']:
                     continue
                 rv = st['rv']
                 if rv['k'] != 'use' or rv['op']['k'] != 'const' or not isinstance(rv['op'].get('val'), bool):
                     continue
-                val = 1 if rv['op']['val'] else 0
-                dest = tg.get(val, t['otherwise'])
+                env = {st['place']['local']: rv['op']['val']}
+                extra = []
+                good = True
+                for dst, how, src, jst in chain:
+                    if src not in env:
+                        good = False
+                        break
+                    env[dst] = (not env[src]) if how == 'not' else env[src]
+                    extra.append(dict(jst, rv={'k': 'use', 'op': {'k': 'const', 'ty': 'bool', 'val': env[dst]}}))
+                if not good or disc not in env:
+                    continue
+                dest = tg.get(1 if env[disc] else 0, t['otherwise'])
                 if isinstance(dest, int):
+                    P['stmts'] = P['stmts'] + extra
                     P['term'] = dict(pt, target=dest)
                     n += 1
     return n
@@ -2293,7 +2322,16 @@ def value_table(body, R, local=0, depth=0):
         return out
     for v, lits, bb in phi_table(body, R, local):
         if v[0] == 'phi' and len(v) > 2 and depth < 3 and v[1] != local:
+            alts = set(strip_sites(a) for a in v[2])
             for v2, lits2, bb2 in value_table(body, R, v[1], depth + 1):
+                # `v` may be the payload projected out of that local (`(opt as Some).0`): its alternatives are then the payloads of the
+                # aggregates of that variant; aggregates of the other variants (None, the `?` residual) are not values of `v`
+                if strip_sites(v2) not in alts and v2[0] == 'agg' and isinstance(v2[1], tuple) and v2[1][0] == 'adt':
+                    inner = [o for o in v2[2] if strip_sites(o) in alts]
+                    if len(v2[2]) == 1 and inner:
+                        v2 = inner[0]
+                    elif not any(strip_sites(a) == strip_sites(v2) for a in v[2]):
+                        continue
                 out.append((v2, list(lits2) + [l for l in lits if l not in lits2], bb2))
         else:
             out.append((v, lits, bb))
